@@ -83,6 +83,26 @@ def soak_script(rounds, seed):
     return s.text()
 
 
+def burst_script(nfiles):
+    """one burst of nfiles distinct files, all due in the same pass (a mass save, a checkout, a restart over a long
+    queue): what is held afterwards must not depend on how many there were"""
+    s = wc.Script(log=False)
+    wc.setup_world(s, wc.base_cfg(deb=0))
+    s.start()
+    s.exec(3, X + "/vim")
+    for i in range(nfiles):
+        f = WATCH + "/inc/burst/f%04d.txt" % i
+        s.put(f, "b%d" % i)
+        s.write(3, f)
+    s.tick(1)
+    s.timeout()
+    s.timeout()
+    s.add("live")
+    s.add("stop")
+    s.add("live")
+    return s.text()
+
+
 def main(rep):
     exe_impl, exe_model = vlib.prepare(rep)
     found = False
@@ -99,6 +119,8 @@ def main(rep):
         # soak: the same round x1, x10, x100 must end with the same number of live blocks and descriptors
         rounds = [1, 10, 100] if rep.tier == "quick" else [1, 10, 100, 400]
         soak = [("soak%d" % r, soak_script(r, rep.seed)) for r in rounds]
+        bursts = [20, 140, 300] if rep.tier == "quick" else [20, 127, 128, 129, 300, 1100]
+        soak += [("burst%d" % b, burst_script(b)) for b in bursts]
         impl, _, problems = vlib.correspond(exe_impl, None, "world", soak, sandbox=True, shards=len(soak))
         figures = {}
         for cid, script in soak:
@@ -108,12 +130,15 @@ def main(rep):
             figures[cid] = [(int(t[2]), int(t[4])) for t in lives]
         rep.cov["soak_figures_fds_live"] = figures
         base = figures.get("soak1")
+        bbase = figures.get("burst%d" % bursts[0])
         total += len(soak)
         if not found:     # (a divergence of the histories is deferred: the soak still decides)
             for cid, fig in figures.items():
-                if fig != base:
-                    rep.violation("soak", {"what": "descriptors / live heap blocks after %s are %s, after one round %s: resource use grows with the number of events"
-                                           % (cid, fig, base), "script": soak_script(int(cid[4:]), rep.seed).split("\n")[:60], "figures": figures})
+                ref = bbase if cid.startswith("burst") else base
+                if fig != ref:
+                    scr = burst_script(int(cid[5:])) if cid.startswith("burst") else soak_script(int(cid[4:]), rep.seed)
+                    rep.violation("soak", {"what": "descriptors / live heap blocks after %s are %s, after %s %s: resource use grows with the number of events"
+                                           % (cid, fig, "the smallest burst" if cid.startswith("burst") else "one round", ref), "script": scr.split("\n")[:60] + ["..."] + scr.split("\n")[-8:], "figures": figures})
                     found = True
                     break
             else:
@@ -159,11 +184,12 @@ def main(rep):
     rep.cov["evaluations"] = total
     rep.cov["distinct_nontrivial"] = total
     rep.cov["traces_validated_against_impl"] = validated
-    rep.cov["input_distribution"] = {"histories": n if exe_impl else 0, "soak_runs": 3, "event_loop_scripts": total - 3 - (n if exe_impl else 0)}
+    nsoak = len(soak) if exe_impl else 0
+    rep.cov["input_distribution"] = {"histories": n if exe_impl else 0, "soak_and_burst_runs": nsoak, "event_loop_scripts": total - nsoak - (n if exe_impl else 0)}
     rep.cov["rule"] = ("random mixed histories with the number of descriptors opened by klunok and not closed (wrapped open/close) checked after every operation: "
                        "2 with a handler loaded, 0 after release; soak: one round of a mixed history (editor exec with ELF interpreter, four damaged editor-named ELF images, plain files, sources replaced by a directory / made unreadable, a history path, "
                        "a project file, a collision, a deleted source, a deleted source whose clean-up fails with EACCES, four passes) repeated 1, 10 and 100 times must end with identical counts of live heap "
-                       "blocks (wrapped malloc/calloc/realloc/strdup/free) and descriptors, before and after releasing the handler; the real main() loop over 5-60 scripted events of every "
+                       "blocks (wrapped malloc/calloc/realloc/strdup/free) and descriptors, before and after releasing the handler; single bursts of 20 / 140 / 300 (thorough: up to 1100) distinct files due in one pass must end with identical counts too; the real main() loop over 5-60 scripted events of every "
                        "kind (the daemon's own included): the descriptor of each event is closed exactly once")
     rep.cov["samples"] = [soak_script(1, rep.seed).split("\n")[-25:]]
     vlib.conclude_proofs(rep, found)
